@@ -39,14 +39,14 @@ type stressViolation struct {
 
 type stressResult struct {
 	Sent, Answered, Keyed, ServFail, Timeouts, Abandoned int64
-	CacheHits                                             int64 // responses whose serial was issued before the query was sent... (approx: serial seen before)
-	Violations                                            []stressViolation
-	Proc                                                  *proxyproc.Result
-	Cells                                                 map[string]int64
-	Reordered                                             int64
-	UpstreamQueries                                       int64
-	StartErr                                              error
-	Samples                                               []any
+	CacheHits                                            int64 // responses whose serial was issued before the query was sent... (approx: serial seen before)
+	Violations                                           []stressViolation
+	Proc                                                 *proxyproc.Result
+	Cells                                                map[string]int64
+	Reordered                                            int64
+	UpstreamQueries                                      int64
+	StartErr                                             error
+	Samples                                              []any
 }
 
 var stressTypes = []uint16{dns.TypeA, dns.TypeAAAA, dns.TypeMX, dns.TypeTXT}
